@@ -292,8 +292,12 @@ class Env:
         return self.Or(self.Not(a), b)
 
     def Iff(self, a, b):
-        if isinstance(a, SB) or isinstance(b, SB):
-            return SB(SB.lift(a) == SB.lift(b))
+        if isinstance(a, SB) and isinstance(b, SB):
+            return a == b
+        if isinstance(a, SB):
+            return a if b else ~a
+        if isinstance(b, SB):
+            return b if a else ~b
         return bool(a) == bool(b)
 
     # comparisons with a tolerance in floating-point (replay / validation) mode
@@ -302,6 +306,8 @@ class Env:
         return self.rtol * s + 1e-300
 
     def eq(self, a, b, scale=None):
+        if hasattr(scale, 'n') and hasattr(scale, 'concrete'):
+            scale = float(scale.n) if scale.concrete else None
         if isinstance(a, (C, complex)) or isinstance(b, (C, complex)) or (
                 self.impl == 'real' and (isinstance(a, complex) or isinstance(b, complex) or _is_np_complex(a) or _is_np_complex(b))):
             if self.impl == 'model':
@@ -316,7 +322,14 @@ class Env:
             if isinstance(d, R) and not d.concrete:
                 # discharge equalities in sum-of-monomials normal form (DESIGN §1.4)
                 n = tf._canon(core.tz(d.n))
-                return SB(n == 0)
+                # robust violation: |a-b| > 1e-5*scale (only used to choose replayable counterexamples)
+                eps = z3.RealVal('1/100000') * (core.rv(Fr(abs(scale))) if isinstance(scale, (int, float, Fr)) and scale else z3.RealVal(1))
+                if core._isz(d.d):
+                    dd = core.tz(d.d)
+                    rf = z3.Or(n * dd > eps * dd * dd, n * dd < -eps * dd * dd)
+                else:
+                    rf = z3.Or(n > eps, n < -eps)
+                return SB(n == 0, None, rf)
             if isinstance(d, R):
                 # both sides concrete: they may carry libm-evaluated constants, compare like doubles
                 ra, rb = R.of(a), R.of(b)
@@ -421,9 +434,9 @@ class Env:
             ok = bool(cond)
             self.checks.append((name, ok, info))
 
-    def draw(self, index, kind):
+    def draw(self, index, kind, ns=''):
         """value of the index-th draw of the random stubs (symbolic variable or the concrete value fed)."""
-        name = f'draw{index}_{kind}'
+        name = f'draw{ns}{index}_{kind}'
         if self.symbolic:
             if kind in ('randint', 'choice'):
                 return SI(z3.Int(name))
@@ -556,20 +569,27 @@ class _DrawFeeder:
     """Feeds the values chosen for the random stubs into numpy.random during a concrete run."""
 
     def __init__(self, values, rng):
-        self.values, self.rng, self.k = values, rng, 0
+        self.values, self.rng, self.k, self.ns = values, rng, 0, ''
         self.log = []
+        self.memo = {}
+
+    def seed(self, s):
+        self.ns, self.k = f's{s}_', 0
 
     def take(self, kind, n, integer=False, hi=None):
         out = []
         for _ in range(n):
-            name = f'draw{self.k}_{kind}'
+            name = f'draw{self.ns}{self.k}_{kind}'
             self.k += 1
             if name in self.values:
                 v = self.values[name]
+            elif name in self.memo:
+                v = self.memo[name]
             elif self.rng is not None:
                 v = self.rng.randrange(hi) if integer and hi else (0 if integer else self.rng.gauss(0, 1))
             else:
                 v = 0 if integer else 0.0
+            self.memo[name] = v
             self.log.append((name, v))
             out.append(v)
         return out
@@ -585,7 +605,7 @@ def run_concrete(scen, cfg, values, impl, lib=None, rng=None, timeout=20):
         env = Env(False, 'real', lib, values, rng)
         feeder = _DrawFeeder(values, rng)
         env._feeder = feeder
-        saved = (numpy.random.normal, numpy.random.randn, numpy.random.randint, numpy.random.choice)
+        saved = (numpy.random.normal, numpy.random.randn, numpy.random.randint, numpy.random.choice, numpy.random.seed)
 
         def normal(loc=0.0, scale=1.0, size=None):
             n = 1 if size is None else int(numpy.prod(size))
@@ -607,6 +627,7 @@ def run_concrete(scen, cfg, values, impl, lib=None, rng=None, timeout=20):
             a = numpy.asarray(a)
             return a[int(feeder.take('choice', 1, True, len(a))[0])]
         numpy.random.normal, numpy.random.randn, numpy.random.randint, numpy.random.choice = normal, randn, randint, choice
+        numpy.random.seed = lambda s=None: feeder.seed(s)
         old = _signal.signal(_signal.SIGALRM, _alarm)
         _signal.alarm(timeout)
         status, exc = 'ok', None
@@ -628,7 +649,7 @@ def run_concrete(scen, cfg, values, impl, lib=None, rng=None, timeout=20):
         finally:
             _signal.alarm(0)
             _signal.signal(_signal.SIGALRM, old)
-            numpy.random.normal, numpy.random.randn, numpy.random.randint, numpy.random.choice = saved
+            numpy.random.normal, numpy.random.randn, numpy.random.randint, numpy.random.choice, numpy.random.seed = saved
         env.status, env.exc = status, exc
         env.draw_log = feeder.log
         return env
@@ -638,6 +659,7 @@ def run_concrete(scen, cfg, values, impl, lib=None, rng=None, timeout=20):
     feeder = _DrawFeeder(values, rng)
     c.draw_source = lambda kind, n: [R(Fr(float(x))) if kind in ('normal', 'randn') else int(x)
                                      for x in feeder.take(kind, n, kind in ('randint', 'choice'))]
+    c.draw_seed = feeder.seed
     set_ctx(c)
     lib.reset()
     env = Env(False, 'model', lib, values, rng)
@@ -741,6 +763,16 @@ def run_symbolic(scen, cfg, lib, limits=None, known=None, prop='?', cfg_name='?'
                     return
                 vals = model_values(m, c.inputs)
                 rep = replay_values(scen, cfg, vals, name)
+                if not rep['reproduced'] and isinstance(cond, SB) and cond.rf is not None:
+                    # the plain model sits on a floating-point boundary: ask for a violation with a margin
+                    r2, m2, dt2, s2 = prove(c.facts() + extra + [cond.rf], z3.BoolVal(False), q_timeout)
+                    res['solver_s'] += dt2
+                    res['queries'] += 1
+                    if r2 == 'sat':
+                        vals2 = model_values(m2, c.inputs)
+                        rep2 = replay_values(scen, cfg, vals2, name)
+                        if rep2['reproduced']:
+                            vals, rep = vals2, rep2
                 if rep['reproduced']:
                     hit = match_known(known, prop, cfg_name, name, vals, rep)
                     rec = {'config': cfg_name, 'check': name, 'values': _jsonable(vals), 'observed': rep['detail'],
